@@ -186,6 +186,8 @@ def r4(ctx, facts, cfg):
         loops = loops_enclosing(f, w)
         ok = False
         why = "write_log is not inside a loop"
+        if loops and loops[0]["k"] != "CXXForRangeStmt":
+            raise AnalysisBroken("_write_log_statement: the loop around write_log is not a range-for: shape not covered")
         if loops:
             lp = loops[0]
             rng = strip(lp.get("range")) if lp["k"] == "CXXForRangeStmt" else None
